@@ -43,6 +43,8 @@ def setLast {α} (v : List α) (x : α) : List α :=
   match v.reverse with
   | [] => []
   | _ :: rest => (x :: rest).reverse
+/-- the last byte of a `String`'s UTF-8 bytes (`s.chars().last()` matched against ASCII literals) -/
+def lastByte (s : Bytes) : Option UInt8 := s.getLast?
 /-- `vec.push(x)` -/
 def push {α} (v : List α) (x : α) : List α := v ++ [x]
 /-- `vec.len()` -/
@@ -147,6 +149,19 @@ def forEach {γ : Type} (xs : List γ) (body : γ → S σ Unit) : S σ Unit :=
   match xs with
   | [] => pure ()
   | x :: rest => do body x; forEach rest body
+
+/-- `self.write_all(buf)`: std's default body of `Write::write_all` over the object's own `write`
+(`Ok(0)` is `WriteZero`; the rest `&buf[n..]` goes on; `ErrorKind::Interrupted` is not produced by
+the model's sink); fuel `buf.len() + 1`, running out of it is a panic -/
+def write_all (w : σ → Bytes → S σ (UInt64 × σ)) : Nat → σ → Bytes → S σ (Unit × σ)
+  | 0, _, _ => ofM (M.panic "rs2lean: loop fuel")
+  | fuel + 1, st, buf =>
+    if buf.isEmpty then pure ((), st) else do
+      let (n, st') ← w st buf
+      if n == 0 then err (.Io .WriteZero) st'
+      else match Rs.sliceFrom buf n with
+        | some rest => write_all w fuel st' rest
+        | none => ofM (M.panic "rs2lean: checked operation")
 
 /-- the method as a step of the model's writer: outcome and final `self` -/
 def run (x : S σ (α × σ)) : M (Except ZErr α × σ) := toM x >>= fun r => match r with
